@@ -333,7 +333,20 @@ func (g *Gen) repeatLoop(d int) []L.Stmt {
 }
 
 func (g *Gen) genFor(d int) []L.Stmt {
-	switch g.n(4, "genforshape") {
+	switch g.n(5, "genforshape") {
+	case 4:
+		// a stateful iterator whose first results are arbitrary non-nil values (false, 0 and "" included): only nil ends
+		// the loop
+		seq, ps, it := g.fresh("seq"), g.fresh("pos"), g.fresh("it")
+		t := tbl()
+		for i, n := 0, 1+g.n(5, "seqn"); i < n; i++ {
+			t.Fields = append(t.Fields, pos([]L.Expr{&L.FalseExpr{}, num(0), str(""), &L.TrueExpr{}, num(float64(i + 3)), str("s")}[g.n(6, "seqv")]))
+		}
+		a, b := g.fresh("a"), g.fresh("b")
+		g.class("iterator_first_value_any")
+		itf := fn(nil, false, blk(assign1(name(ps), bin("+", name(ps), num(1))), ret(idx(name(seq), name(ps)), name(ps))))
+		return []L.Stmt{&L.DoStmt{Body: blk(local1(seq, t), local1(ps, num(0)), &L.LocalFuncStmt{Name: it, Fn: itf},
+			&L.GenForStmt{Names: []string{a, b}, Exprs: []L.Expr{name(it)}, Body: blk(emit(name(a), name(b)))}, emit(str("loop ended at"), name(ps)))}}
 	case 0, 1:
 		// ipairs over an array
 		var te L.Expr
